@@ -243,6 +243,31 @@ func CorpusHistories(scratch string, names map[string]bool) ([]*History, []strin
 			}
 			return nil
 		}, func(g *Genesis) { easyParams(g); g.Params.MinTrxGas = 100000 }},
+		// an account with enough own stake to be a candidate, but outside the selected validator set
+		// (the set is full), submits a parameter proposal: only current validators may
+		{"candidate-outside-the-set-proposes", 2, 2, 9, func(s *Sim, h int64) []*TxSpec {
+			switch h {
+			case 2:
+				return []*TxSpec{s.TxStake(s.User(0), s.User(0).Addr, 5)}
+			case 5:
+				np := s.params
+				np.SlashRatio, np.Version = 60, 2
+				t := s.TxProposal(s.User(0), 6, 1, 8)
+				t.Prop.Options = []OptSpec{{Raw: np.JSON(true), Params: &np}}
+				t.Note = "script-proposal-by-non-validator"
+				return []*TxSpec{t}
+			case 6:
+				if len(s.H.WatchH) > 0 {
+					ph := s.H.WatchH[len(s.H.WatchH)-1]
+					return []*TxSpec{s.TxVote(s.Val(0), ph, 0), s.TxVote(s.Val(1), ph, 0)}
+				}
+			}
+			return nil
+		}, func(g *Genesis) {
+			easyParams(g)
+			g.Params.MaxValidatorCnt = 2
+			g.Params.MinVotingPeriodBlocks, g.Params.MaxVotingPeriodBlocks, g.Params.LazyApplyingBlocks = 1, 3, 1
+		}},
 		// downtime: with window 10 and minimum 8 the third miss inside the window (blocks 4, 6, 8) is the
 		// one that takes the validator below the minimum: it must lose all stake in that very block
 		{"downtime-at-exact-threshold", 3, 2, 14, func(s *Sim, h int64) []*TxSpec {
